@@ -84,11 +84,44 @@ pub enum ValParser {
     Path,
     I64 { lo: i64, hi: i64 },
     U16,
+    /// a narrower / unsigned integer target with an optional declared range
+    Int { w: IntW, range: Option<(i64, i64)> },
     Bool,
     Boolish,
     Possible(Vec<PvSpec>),
     /// A caller-supplied TypedValueParser that rejects the listed raw values (callback fault seam).
     Reject(Vec<String>),
+}
+
+#[derive(Clone, Copy, Debug, Hash, PartialEq, Eq, Serialize, Deserialize, PartialOrd, Ord)]
+pub enum IntW {
+    I8,
+    I16,
+    I32,
+    U8,
+    U32,
+    U64,
+}
+
+impl IntW {
+    pub fn limits(self) -> (i128, i128) {
+        match self {
+            IntW::I8 => (i8::MIN as i128, i8::MAX as i128),
+            IntW::I16 => (i16::MIN as i128, i16::MAX as i128),
+            IntW::I32 => (i32::MIN as i128, i32::MAX as i128),
+            IntW::U8 => (0, u8::MAX as i128),
+            IntW::U32 => (0, u32::MAX as i128),
+            IntW::U64 => (0, u64::MAX as i128),
+        }
+    }
+    /// the language: inside the type and inside the declared range
+    pub fn language(self, range: Option<(i64, i64)>) -> (i128, i128) {
+        let (tl, th) = self.limits();
+        match range {
+            Some((lo, hi)) => (tl.max(lo as i128), th.min(hi as i128)),
+            None => (tl, th),
+        }
+    }
 }
 
 #[derive(Clone, Copy, Debug, Hash, PartialEq, Eq, Serialize, Deserialize)]
@@ -539,6 +572,20 @@ pub fn build_arg(a: &ArgSpec) -> Arg {
             ValParser::Path => x.value_parser(clap::value_parser!(std::path::PathBuf)),
             ValParser::I64 { lo, hi } => x.value_parser(clap::value_parser!(i64).range(*lo..=*hi)),
             ValParser::U16 => x.value_parser(clap::value_parser!(u16)),
+            ValParser::Int { w, range } => match (w, range) {
+                (IntW::I8, None) => x.value_parser(clap::value_parser!(i8)),
+                (IntW::I8, Some((lo, hi))) => x.value_parser(clap::value_parser!(i8).range(*lo..=*hi)),
+                (IntW::I16, None) => x.value_parser(clap::value_parser!(i16)),
+                (IntW::I16, Some((lo, hi))) => x.value_parser(clap::value_parser!(i16).range(*lo..=*hi)),
+                (IntW::I32, None) => x.value_parser(clap::value_parser!(i32)),
+                (IntW::I32, Some((lo, hi))) => x.value_parser(clap::value_parser!(i32).range(*lo..=*hi)),
+                (IntW::U8, None) => x.value_parser(clap::value_parser!(u8)),
+                (IntW::U8, Some((lo, hi))) => x.value_parser(clap::value_parser!(u8).range(*lo..=*hi)),
+                (IntW::U32, None) => x.value_parser(clap::value_parser!(u32)),
+                (IntW::U32, Some((lo, hi))) => x.value_parser(clap::value_parser!(u32).range(*lo..=*hi)),
+                (IntW::U64, None) => x.value_parser(clap::value_parser!(u64)),
+                (IntW::U64, Some((lo, hi))) => x.value_parser(clap::value_parser!(u64).range((*lo).max(0) as u64..=(*hi).max(0) as u64)),
+            },
             ValParser::Bool => x.value_parser(clap::value_parser!(bool)),
             ValParser::Boolish => x.value_parser(clap::builder::BoolishValueParser::new()),
             ValParser::Possible(pvs) => x.value_parser(PossibleValuesParser::new(pvs.iter().map(build_pv).collect::<Vec<_>>())),
